@@ -83,7 +83,7 @@ def select(rel, selector):
 
 CFG_TRUTH = {'target_family="wasm"': False, 'not(target_family="wasm")': True, 'test': False,
              'target_family = "wasm"': False, 'not(target_family = "wasm")': True}
-KEEP_DERIVES_ALWAYS = {'PartialEq', 'Eq', 'Copy', 'Debug'}
+KEEP_DERIVES_ALWAYS = {'PartialEq', 'Eq', 'Copy', 'Debug', 'Hash'}
 
 
 def strip_attrs(text, log, keep_derive=True):
@@ -237,6 +237,44 @@ def norm_vis(text, log):
     return new
 
 
+def pub_fields(text, log):
+    """T8: private struct fields become `pub` (visibility only; single-module crate)."""
+    m = re.search(r'\bstruct\s+[A-Za-z_]\w*\s*(<[^>{(;]*>)?\s*([({])', text)
+    if not m:
+        return text
+    open_i = m.end() - 1
+    close = rs.match_close(text, open_i)
+    inner = text[open_i + 1:close]
+    # split at top-level commas
+    parts = []
+    depth = 0
+    last = 0
+    for j, t in rs.tokens(inner):
+        if t in '([{<':
+            depth += 1
+        elif t in ')]}>':
+            depth -= 1
+        elif t == ',' and depth == 0:
+            parts.append(inner[last:j])
+            last = j + 1
+    parts.append(inner[last:])
+    changed = False
+    new_parts = []
+    for part in parts:
+        # find first token (skipping comments)
+        first = None
+        for j, t in rs.tokens(part):
+            first = (j, t)
+            break
+        if first and first[1] != 'pub':
+            part = part[:first[0]] + 'pub ' + part[first[0]:]
+            changed = True
+        new_parts.append(part)
+    if changed:
+        log.append('T8 private fields -> pub')
+    return text[:open_i + 1] + ','.join(new_parts) + text[close:]
+
+
 def name_return(sig, log, rname='r'):
     """T1: `-> T` => `-> (r: T)` on a function signature (text up to, excluding, the body brace)."""
     # find the last '->' at bracket depth 0
@@ -385,7 +423,11 @@ def process(template_path, out=None, unit=None, depth=0):
             continue
         d, arg = m.group(1), m.group(2).strip()
         if d == 'include':
-            process(os.path.join(ROOT, 'contracts', arg), out, unit, depth + 1)
+            if not hasattr(out, 'included'):
+                out.included = set()
+            if arg not in out.included:      # include-once
+                out.included.add(arg)
+                process(os.path.join(ROOT, 'contracts', arg), out, unit, depth + 1)
             i += 1
             continue
         if d == 'assume':
@@ -408,6 +450,8 @@ def process(template_path, out=None, unit=None, depth=0):
             text2, clone_nc = strip_attrs(text, log)
             text2 = rewrite_macros(text2, log)
             text2 = norm_vis(text2, log)
+            if it.kind == 'struct':
+                text2 = pub_fields(text2, log)
             for o in opts:
                 if o.startswith('s/'):
                     _, a, b, _ = o.split('/')
@@ -486,6 +530,15 @@ def process_fn(tl, i, d, arg, out, unit):
         body = src[it.body_open:it.end]
         body_src_line = line_of(src, it.body_open)
         sig2 = name_return(norm_vis(sig, log), log)
+        # T9: `_` parameters get a name (Verus requires identifiers)
+        cnt = [0]
+        def _nm(m):
+            cnt[0] += 1
+            return '%s_unused%d:' % (m.group(1), cnt[0])
+        sig3 = re.sub(r'([(,]\s*)_\s*:', _nm, sig2)
+        if sig3 != sig2:
+            log.append('T9 `_` parameters named')
+            sig2 = sig3
         sig2 = re.sub(r'^\s+', '', sig2)
     else:
         # match arm: wrapper signature comes from the template (T7)
@@ -579,6 +632,12 @@ def process_fn(tl, i, d, arg, out, unit):
     for k, a, ls in sections:
         if k == 'name':
             qual = a
+    if getattr(out, 'canary', False):
+        # vacuity guard build: `assert(false)` must be refuted at the top of the body and of every annotated loop
+        inserts.append((body.index('{') + 1, '\nassert(false); // CANARY %s/pre\n' % qual, 'canary'))
+        for k, a, ls in sections:
+            if k == 'loop':
+                inserts.append((loops[int(a)][1] + 1, '\nassert(false); // CANARY %s/loop#%s\n' % (qual, a), 'canary'))
 
     # ---- emit
     meta = {'unit': unit, 'fn': qual, 'file': rel, 'selector': sel, 'src_line': line_of(src, it.kw),
@@ -611,7 +670,7 @@ def process_fn(tl, i, d, arg, out, unit):
     out.obligations.append({'name': '%s/safety' % qual, 'kind': 'safety', 'fn': qual,
                             'text': 'no arithmetic overflow/underflow, no out-of-bounds index, no unwrap/expect on None/Err, no reachable panic!/unreachable!, callee preconditions, termination'})
     # body with insertions
-    inserts.sort(key=lambda x: x[0])
+    inserts = [x for _, x in sorted(enumerate(inserts), key=lambda t: (t[1][0], t[0]))]
     pieces = []
     last = 0
     body_start_line = len(out.lines) + 1
@@ -641,6 +700,13 @@ def process_fn(tl, i, d, arg, out, unit):
             reg['src_line'] = body_src_line + consumed_src_nl
             consumed_src_nl += full[a:b].count('\n')
         out.map.append(reg)
+    if getattr(out, 'canary', False):
+        if not hasattr(out, 'canaries'):
+            out.canaries = []
+        for ln in range(first_line, len(out.lines) + 1):
+            mm = re.search(r'// CANARY (\S+)$', out.lines[ln - 1])
+            if mm:
+                out.canaries.append({'name': mm.group(1), 'line': ln})
     for k, a, ls in sections:
         if k == 'loop':
             out.obligations.append({'name': '%s/loop#%s' % (qual, a), 'kind': 'loop', 'fn': qual,
